@@ -73,12 +73,20 @@ def gen_upstream(ch, cap):
             body = (text * (1 + ch.choose("rep", 40))).encode(label)
             q = ch.pick("cq", ["%s", '"%s"', "%s "])
             meta = f"text/{ch.pick('tsub', ['plain', 'gemini'])}; charset=" + (q % label)
+            mv = ch.choose("metaform", 4, [6, 1, 1, 1])
+            if mv == 1:
+                meta = ""                          # no media type at all
+            elif mv == 2:
+                meta = "; charset=" + label        # parameters only
+            elif mv == 3:
+                meta = "TEXT/Plain;charset=" + label.upper()
             head = f"20 {meta}\r\n".encode()
             info["charset"] = label
             info["name"] = "text/" + label
         elif kind == 1:     # binary
             body = ch.bytes_("bin", ch.biased_size("blen", 0, min(cap, 50000), [0, 1, 16384]))
-            head = b"20 application/octet-stream\r\n"
+            head = ch.pick("binhead", [b"20 application/octet-stream\r\n", b"20 \r\n",
+                                       b"20 image/png\r\n", b"20 ;x=y\r\n"], [5, 2, 2, 1])
             info["name"] = "binary"
         elif kind == 2:     # every status class, no body
             st = ch.pick("st", [10, 11, 30, 31, 40, 41, 42, 43, 44, 50, 51, 52, 53, 59, 60, 61, 62,
